@@ -18,10 +18,14 @@ RULE = ('every exception class of pyramid.httpexceptions x detail/comment/explan
         'paths, plus the other raisers reached through a real Router (static view: not found / out of bounds / add-slash '
         'redirect with request URL and query string; PredicateMismatch of multiviews and predicated views; HTTPForbidden '
         'of secured views), plus histories (one exception object called 2-3 times under different Accept headers / environs, '
-        'incl. a failing first call), plus code-point sweeps through html_escape and json.dumps; non-trivial = a body was rendered and at '
+        'incl. a failing first call), plus the constructor\'s other documented keywords: json_formatter= (formatters building '
+        'their dict from body/status/title/constants/environ[K]/environ.get(K, D), succeeding or raising KeyError for the '
+        'request at hand, also across the calls of a history) and the Response keywords content_type= / charset= (equal to '
+        'or different from the negotiated form), plus code-point sweeps through html_escape and json.dumps; non-trivial = a body was rendered and at '
         'least one supplied text contains a character that an escape function or the Template scanner treats '
         'specially; distinct by full case')
 ASSUMPTIONS = [
+    'json_formatter= callables are of the modelled family (dict built member by member from body / status / title / constant / environ[K] / environ.get(K, D); str values); content_type= is a media type without parameters, charset= a token or empty/None; other Response keywords (body=, app_iter=, headerlist=, json_body=, attribute keywords other than location=) are not generated',
     'detail, comment, explanation, location, header and environ values are str (objects with __html__ bypass escaping by WebOb design; bytes/other objects are stringified before escaping and are not generated)',
     'the result of WebOb Accept negotiation (acceptable_offers) is an oracle input of the model',
     'response header names passed as headers= are ASCII (str.lower() is modelled on ASCII); Content-Type and Content-Length can never be named by a Template identifier and are left out of the args map',
@@ -32,12 +36,12 @@ ASSUMPTIONS = [
 ]
 TRUSTED = [
     'primitive table of harness/c19/translate.py (docstring; ~40 entries: Python/WebOb/Pyramid leaf semantics -> coq/Model/C19_base.v) and the translator itself (fail-closed, its output is type-checked by Coq and exercised by the correspondence run)',
-    'hand-written reference model coq/Model/C19.v (what the theorems are about); _no_escape, HTTPForbidden.__init__, HTTPException.__str__, default_exceptionresponse_view and the other raisers stay shape-pinned',
+    'hand-written reference model coq/Model/C19.v (what the theorems are about); _no_escape, HTTPException.__str__, default_exceptionresponse_view, exception_response and the other raisers stay shape-pinned',
     'string.Template.substitute, webob.html_escape (html.escape + xmlcharrefreplace), json.dumps(ensure_ascii), str.encode("utf-8"): modelled, validated by correspondence (code-point sweeps), not verified',
-    'WebOb Response (status, content_type/charset setters, header list), Accept negotiation: oracle / validated by correspondence',
+    'WebOb Response: constructor keywords content_type= / charset= / location=, the content_type setter (value + default charset for text/*, text/html and XML types, earlier parameters dropped), charset = None, header list: modelled in coq/Model/C19_base.v (kw_ctype, kw_charset, default_charset, texty), validated by correspondence; Accept negotiation: oracle',
 ]
 TECHNIQUE = ('Coq proof about a hand-written Gallina reference model; the control flow of HTTPException.__init__, '
-             '_HTTPMove.__init__, _json_formatter, prepare and __call__ is REGENERATED from the source on every run by a '
+             '_HTTPMove.__init__, HTTPForbidden.__init__, _json_formatter, prepare and __call__ is REGENERATED from the source on every run by a '
              'fail-closed ast -> Gallina translator (harness/c19/translate.py) and proved equal to the reference model; '
              'extracted regenerated program vs implementation differential run')
 LEVEL_TEXT = ('Machine-checked, for all texts, classes of the regenerated table, negotiation outcomes and call sequences: the '
@@ -47,13 +51,19 @@ LEVEL_TEXT = ('Machine-checked, for all texts, classes of the regenerated table,
               'html_escape output has no < > " \' and every & starts a reference; the markup of an HTML error page does not '
               'depend on supplied text; explicit shapes of the default, redirect and 405 pages (incl. the 404 page echoing the '
               'request path); the JSON body reads back (reference RFC 8259 reader) with the text verbatim; content type = first '
-              'acceptable offer else text/plain; every response in a history carries the content type of the form its body was '
-              'rendered in. Tie to the code: the translator (control flow mechanical, leaves through a primitive table), '
+              'acceptable offer else text/plain; explicit shape of the plain-text page; every response in a history carries the '
+              'content type of the form its body was rendered in; content_type= / charset= given to the constructor never '
+              'show in the response; a custom json_formatter= is consulted in the JSON form only, receives the single-pass '
+              'rendering of the body template, its members are dumped as an ASCII JSON object that reads back exactly, and a '
+              'formatter that raises yields no response (never another rendering under the application/json label). '
+              'Tie to the code: the translator (control flow mechanical, leaves through a primitive table), '
               'regenerated literals/class table, shape pins only for untranslated helpers, and a differential run of the '
               'extracted regenerated program against the real exceptions, Router and static/secured/predicated views.')
 LEVEL_NOTE = ('Outside the property by WebOb design (documented behaviour of webob.html_escape): a detail/comment/value '
               'object with an __html__ method is inserted as its __html__() result, unescaped -- such objects are markup '
               'supplied by the developer, not request-derived text, and are neither modelled nor generated. '
+              'json_formatter= is modelled for a family of formatters (members from body/status/title/constants/environ, str '
+              'values, KeyError as the only failure); Response keywords other than content_type=/charset=/location= are outside. '
               'Trusted: Coq kernel; the translator\'s primitive table; Python harness; '
               'string.Template/html.escape/json.dumps/UTF-8/WebOb modelled or taken as oracle and validated, not verified.')
 
@@ -230,9 +240,52 @@ def gen_direct(rng):
         for k, h in (('x_foo', 'X_Foo'), ('x_tra', 'X_tra'), ('location', 'Location')):
             if k in tmpl and not info['move'] and rng.random() < 0.9:
                 headers.append([h, gen_text(rng, 3, surrogates=False)])
-    return {'via': 'direct', 'cls': cls, 'detail': gen_opt_text(rng), 'comment': gen_opt_text(rng, 0.45),
+    case = {'via': 'direct', 'cls': cls, 'detail': gen_opt_text(rng), 'comment': gen_opt_text(rng, 0.45),
             'explanation': gen_opt_text(rng, 0.8), 'location': loc, 'headers': headers, 'environ': env,
-            'body_template': tmpl}
+            'body_template': tmpl, 'formatter': None, 'ctype_kw': None, 'charset_kw': None}
+    r = rng.random()
+    if r < 0.14:
+        gen_formatter(rng, case)
+    if rng.random() < 0.14:
+        if rng.random() < 0.85:
+            case['ctype_kw'] = rng.choice(KW_TYPES)
+        if rng.random() < 0.35:
+            case['charset_kw'] = rng.choice(KW_CHARSETS)
+    return case
+
+
+KW_TYPES = ['text/html', 'application/json', 'text/plain', 'application/problem+json', 'application/xml', 'image/svg+xml',
+            'image/png', 'text/xml', 'application/octet-stream', '', 'text/html', 'application/json', 'text/plain']
+KW_CHARSETS = ['UTF-8', 'latin-1', 'ascii', '', 'utf-16']
+FMT_KEYS = ['message', 'code', 'title', 'request_id', 'detail', 'x', 'message', 'é"<k>']
+FMT_ENV = ['HTTP_X_REQUEST_ID', 'HTTP_X_EVIL', 'REQUEST_METHOD', 'CUSTOM_VARIABLE', 'missing', 'PATH_INFO', 'my.key']
+
+
+def gen_formatter(rng, case):
+    """json_formatter= (documented hook): a formatter of the modelled family -- members assigned in order, values
+    from body / status / title / a constant / environ[K] (KeyError when absent) / environ.get(K, D)"""
+    members = []
+    for _ in range(rng.choice([1, 2, 3, 3, 4])):
+        k = rng.choice(FMT_KEYS)
+        t = rng.choice([0, 0, 1, 2, 3, 4, 4, 5])
+        if t <= 2:
+            src = [t]
+        elif t == 3:
+            src = [3, gen_text(rng, 3, surrogates=False)]
+        elif t == 4:
+            src = [4, rng.choice(FMT_ENV)]
+        else:
+            src = [5, rng.choice(FMT_ENV), gen_text(rng, 2, surrogates=False)]
+        members.append([k, src])
+    case['formatter'] = members
+    have = [kv[0] for kv in case['environ']]
+    for k, src in members:
+        if src[0] in (4, 5) and src[1] not in have and rng.random() < 0.55:
+            case['environ'].append([src[1], gen_text(rng, 3, surrogates=False)])
+            have.append(src[1])
+    if rng.random() < 0.6:
+        case['environ'] = [kv for kv in case['environ'] if kv[0] != 'HTTP_ACCEPT'] + [
+            ['HTTP_ACCEPT', rng.choice(['application/json', 'application/json, text/html;q=0.5', 'application/*'])]]
 
 
 def gen_router(rng):
@@ -272,6 +325,17 @@ def gen_history(rng):
         # make the first call's form differ from a later one more often
         a0 = rng.choice(['text/plain', 'application/json', 'text/html'])
         calls[0] = [kv for kv in calls[0] if kv[0] != 'HTTP_ACCEPT'] + [['HTTP_ACCEPT', a0]]
+    if c.get('formatter') and rng.random() < 0.6:
+        # a formatter that fails on the first call (request without the key), a later call that carries it
+        ks = [src[1] for _, src in c['formatter'] if src[0] == 4 and src[1] not in [kv[0] for kv in BASE_ENV]]
+        if ks:
+            calls[0] = [kv for kv in calls[0] if kv[0] not in ks]
+            k = rng.randrange(1, len(calls))
+            for key in ks:
+                if key not in [kv[0] for kv in calls[k]]:
+                    calls[k] = calls[k] + [[key, gen_text(rng, 2, surrogates=False)]]
+            calls = [[kv for kv in e if kv[0] != 'HTTP_ACCEPT'] + [['HTTP_ACCEPT', 'application/json']]
+                     if rng.random() < 0.7 else e for e in calls]
     if rng.random() < 0.12:
         # a first call that fails (placeholder not yet in the environ), a later one that supplies it
         c['body_template'] = rng.choice(['${detail} ${HTTP_X_EVIL}', '$HTTP_X_EVIL<p>${detail}</p>${br}'])
@@ -284,8 +348,14 @@ def gen_history(rng):
     return c
 
 
+OBJ_FIELDS = ('cls', 'detail', 'comment', 'explanation', 'location', 'headers', 'body_template')
+EXT_FIELDS = ('formatter', 'ctype_kw', 'charset_kw')
+
+
 def _as_direct(case, k):
-    d = {f: case[f] for f in ('cls', 'detail', 'comment', 'explanation', 'location', 'headers', 'body_template')}
+    d = {f: case[f] for f in OBJ_FIELDS}
+    for f in EXT_FIELDS:
+        d[f] = case.get(f)
     d['via'] = 'direct'
     d['environ'] = case['calls'][k]
     return d
@@ -295,7 +365,8 @@ def sweep_case(start, n, accept, cls='HTTPNotFound', skip_surrogates=False):
     cps = [c for c in range(start, min(start + n, 0x110000)) if not (skip_surrogates and 0xd800 <= c < 0xe000)]
     env = [list(kv) for kv in BASE_ENV] + [['HTTP_ACCEPT', accept]]
     return {'via': 'direct', 'cls': cls, 'detail': ''.join(map(chr, cps)), 'comment': None, 'explanation': None,
-            'location': '', 'headers': [], 'environ': env, 'body_template': None}
+            'location': '', 'headers': [], 'environ': env, 'body_template': None,
+            'formatter': None, 'ctype_kw': None, 'charset_kw': None}
 
 
 def generate(rng, tier, n):
@@ -334,8 +405,8 @@ def valid(case):
     try:
         if case.get('via') == 'history':
             return (isinstance(case.get('calls'), list) and 1 <= len(case['calls']) <= 4
-                    and set(case) == {'via', 'cls', 'detail', 'comment', 'explanation', 'location', 'headers',
-                                      'body_template', 'calls'}
+                    and set(case) - set(EXT_FIELDS) == {'via', 'cls', 'detail', 'comment', 'explanation', 'location',
+                                                        'headers', 'body_template', 'calls'}
                     and all(valid(_as_direct(case, k)) for k in range(len(case['calls']))))
         if case.get('via') == 'app':
             return apps.valid(case)
@@ -370,9 +441,42 @@ def valid(case):
         for k, v in case['headers']:
             if not k or not k.isascii() or k.lower() in ('content-type', 'content-length'):
                 return False
-        return True
+        if set(case) - set(EXT_FIELDS) != {'via', 'cls', 'detail', 'comment', 'explanation', 'location', 'headers',
+                                           'environ', 'body_template'}:
+            return False
+        return _valid_ext(case)
     except Exception:
         return False
+
+
+def _token(t):
+    return isinstance(t, str) and t.isascii() and all(33 <= ord(c) < 127 and c not in ';,' for c in t)
+
+
+def _valid_ext(case):
+    f = case.get('formatter')
+    if f is not None:
+        if not isinstance(f, list) or len(f) > 6:
+            return False
+        for m in f:
+            if not (isinstance(m, list) and len(m) == 2 and isinstance(m[0], str) and isinstance(m[1], list) and m[1]):
+                return False
+            src = m[1]
+            if src[0] not in (0, 1, 2, 3, 4, 5) or len(src) != {0: 1, 1: 1, 2: 1, 3: 2, 4: 2, 5: 3}[src[0]]:
+                return False
+            if not all(isinstance(a, str) for a in src[1:]):
+                return False
+    ck, cs = case.get('ctype_kw'), case.get('charset_kw')
+    if ck is not None and not (ck == '' or (_token(ck) and '/' in ck and 'charset=' not in ck)):
+        return False
+    if cs is not None and not (cs == '' or _token(cs)):
+        return False
+    return True
+
+
+def _ext_wire(case):
+    f = case.get('formatter')
+    return [None if f is None else [[[k, list(src)] for k, src in f]], _opt(case.get('ctype_kw')), _opt(case.get('charset_kw'))]
 
 
 # ------------------------------------------------------------ oracle + wire
@@ -399,20 +503,20 @@ def to_wire(case):
         for env in case['calls']:
             steps.append([[list(kv) for kv in env], oracle_offers(_accept_of(dict(map(tuple, env))))])
         return [case['cls'], _opt(case['detail']), _opt(case['comment']), _opt(case['explanation']), case['location'],
-                [list(kv) for kv in case['headers']], _opt(case['body_template']), steps]
+                [list(kv) for kv in case['headers']], _opt(case['body_template']), steps, _ext_wire(case)]
     if case['via'] == 'app':
         cls, detail, loc = apps.expected(case, _table()['formats'])
         acc = case['accept']
         return [cls, _opt(detail), None, None, loc, [], apps.environ_of(case), None,
-                oracle_offers('' if acc is None else acc)]
+                oracle_offers('' if acc is None else acc), [None, None, None]]
     if case['via'] == 'router':
         acc = case['accept']
         return ['HTTPNotFound', [oracle_path_info(case['path'])], None, None, '', [], [], None,
-                oracle_offers('' if acc is None else acc)]
+                oracle_offers('' if acc is None else acc), [None, None, None]]
     env = dict(map(tuple, case['environ']))
     return [case['cls'], _opt(case['detail']), _opt(case['comment']), _opt(case['explanation']), case['location'],
             [list(kv) for kv in case['headers']], [list(kv) for kv in case['environ']], _opt(case['body_template']),
-            oracle_offers(_accept_of(env))]
+            oracle_offers(_accept_of(env)), _ext_wire(case)]
 
 
 def _dec(o):
@@ -503,6 +607,17 @@ def run_impl(case):
     return _collect(exc, dict(map(tuple, case['environ'])))
 
 
+def make_formatter(members):
+    def formatter(status, body, title, environ):
+        d = {}
+        for k, src in members:
+            t = src[0]
+            d[k] = (body if t == 0 else status if t == 1 else title if t == 2 else src[1] if t == 3
+                    else environ[src[1]] if t == 4 else environ.get(src[1], src[2]))
+        return d
+    return formatter
+
+
 def _construct(case):
     H = _impl['H']
     cls = getattr(H, case['cls'])
@@ -511,6 +626,12 @@ def _construct(case):
         kw['body_template'] = case['body_template']
     if _table()['classes'][case['cls']]['move']:
         kw['location'] = case['location']
+    if case.get('formatter') is not None:
+        kw['json_formatter'] = make_formatter(case['formatter'])
+    if case.get('ctype_kw') is not None:
+        kw['content_type'] = case['ctype_kw']
+    if case.get('charset_kw') is not None:
+        kw['charset'] = case['charset_kw'] or None
     try:
         exc = cls(detail=case['detail'], headers=[tuple(kv) for kv in case['headers']] or None,
                   comment=case['comment'], **kw)
@@ -538,7 +659,8 @@ def _supplied(case):
 
 
 def spec_holds(case, obs, spec):
-    """obs must equal the Coq specification's rendering (content type of the best acceptable form, every
+    """(a response produced where the specification has an error must still not be labelled application/json
+    over a body that is not JSON.)  obs must equal the Coq specification's rendering (content type of the best acceptable form, every
     supplied text through html_escape in the HTML form, verbatim in JSON/plain, single-pass substitution);
     plus checks made here with the libraries themselves (json.loads; a marker tag never survives in HTML)."""
     if spec is None:
@@ -547,7 +669,11 @@ def spec_holds(case, obs, spec):
         return _history_holds(case, obs, spec)
     want, want_type = spec
     if want[0] != 'OK':
-        return None          # unknown placeholder / malformed custom template / unencodable text: nothing promised
+        # unknown placeholder / malformed custom template / unencodable text / failing formatter: no response is
+        # promised -- but a response that is produced all the same must not carry a label its body does not match
+        if obs[0] == 'OK' and _mislabelled(obs):
+            return False
+        return None
     if obs[0] != 'OK':
         return False
     if obs != want:
@@ -566,6 +692,10 @@ def spec_holds(case, obs, spec):
             j = json.loads(body.encode('latin-1').decode('utf-8'))
         except ValueError:
             return False
+        if not isinstance(j, dict):
+            return False
+        if case.get('formatter') is not None:
+            return True      # the members are the formatter's: compared with the Coq rendering above
         if sorted(j) != ['code', 'message', 'title'] or j['code'] != status:
             return False
         if case['via'] == 'app':
@@ -578,6 +708,16 @@ def spec_holds(case, obs, spec):
         if d and plain_default and not any(0xd800 <= ord(c) < 0xe000 for c in d) and d not in j['message']:
             return False
     return True
+
+
+def _mislabelled(obs):
+    """an observed response whose Content-Type says JSON while the body is not a JSON document"""
+    if obs[2] == 'application/json':
+        try:
+            json.loads(obs[4].encode('latin-1').decode('utf-8'))
+        except ValueError:
+            return True
+    return False
 
 
 def _history_holds(case, obs, spec):
@@ -648,6 +788,7 @@ def kinds(case, obs):
             k.append('has-markup')
         if '$' in j:
             k.append('has-dollar')
+        k += _ext_kinds(case, forms)
         return k
     k = ['via-' + case['via']]
     if obs[0] == 'OK':
@@ -677,6 +818,7 @@ def kinds(case, obs):
             k.append('explanation-override')
         if case['headers']:
             k.append('extra-headers')
+        k += _ext_kinds(case, [obs[2] if obs[0] == 'OK' else 'exc'])
         texts = _supplied(case)
     k.append('accept-' + ('absent' if acc is None else 'empty' if acc == '' else 'wild' if '*' in acc else
                           'q' if 'q=' in acc else 'plainlist'))
@@ -691,6 +833,24 @@ def kinds(case, obs):
         k.append('has-control')
     if any(0xd800 <= ord(c) < 0xe000 for c in j):
         k.append('has-surrogate')
+    return k
+
+
+def _ext_kinds(case, forms):
+    k = []
+    if case.get('formatter') is not None:
+        k.append('formatter-custom')
+        if 'application/json' in forms:
+            k.append('formatter-json-rendered')
+        if 'exc' in forms and any(src[0] == 4 for _, src in case['formatter']):
+            k.append('formatter-may-have-failed')
+    ck = case.get('ctype_kw')
+    if ck is not None:
+        k.append('kw-content_type')
+        if any(f not in ('exc', '', ck) for f in forms):
+            k.append('kw-content_type-differs-from-negotiated')
+    if case.get('charset_kw') is not None:
+        k.append('kw-charset')
     return k
 
 
@@ -732,7 +892,7 @@ def shrinks(case):
                 yield dict(case, calls=case['calls'][:i] + case['calls'][i + 1:])
         for k in range(n):
             for d in shrinks(_as_direct(case, k)):
-                c2 = {f: d[f] for f in ('cls', 'detail', 'comment', 'explanation', 'location', 'headers', 'body_template')}
+                c2 = {f: d[f] for f in OBJ_FIELDS + EXT_FIELDS}
                 c2['via'] = 'history'
                 calls = list(case['calls'])
                 calls[k] = d['environ']
@@ -752,9 +912,17 @@ def shrinks(case):
         for t in _str_shrinks(case['path']):
             yield dict(case, path=t)
         return
-    for f in ('body_template', 'comment', 'explanation', 'detail'):
-        if case[f] is not None:
+    for f in ('body_template', 'comment', 'explanation', 'detail') + EXT_FIELDS:
+        if case.get(f) is not None:
             yield dict(case, **{f: None})
+    if case.get('formatter'):
+        fm = case['formatter']
+        for i in range(len(fm)):
+            yield dict(case, formatter=fm[:i] + fm[i + 1:])
+        for i, (k, src) in enumerate(fm):
+            if src[0] in (3, 5):
+                for t in _str_shrinks(src[-1]):
+                    yield dict(case, formatter=fm[:i] + [[k, src[:-1] + [t]]] + fm[i + 1:])
     if case['headers']:
         yield dict(case, headers=[])
         for i in range(len(case['headers'])):
@@ -824,6 +992,28 @@ def targeted(broken, disagreements, rng):
                     out.append({'via': 'history', 'cls': cls, 'detail': t, 'comment': t, 'explanation': None,
                                 'location': 'http://example.com/' + t if tb['classes'][cls]['move'] else '',
                                 'headers': [], 'body_template': None, 'calls': envs})
+    # the constructor's other keywords: json_formatter= (succeeding / failing for this request), content_type=, charset=
+    fmts = [[['message', [0]], ['code', [1]], ['title', [2]], ['request_id', [4, 'HTTP_X_REQUEST_ID']]],
+            [['message', [0]], ['rid', [5, 'HTTP_X_REQUEST_ID', 'none']]],
+            [['note', [3, '<b>"${br}']], ['message', [0]]]]
+    for cls in ['HTTPNotFound', 'HTTPBadRequest', 'HTTPFound']:
+        if cls not in tb['classes']:
+            continue
+        for acc in ['application/json', 'text/html', 'text/plain', None, '*/*', 'image/png']:
+            env0 = [list(kv) for kv in BASE_ENV] + ([['HTTP_ACCEPT', acc]] if acc is not None else [])
+            base = {'via': 'direct', 'cls': cls, 'detail': '<script>alert(1)</script> & "${detail}"', 'comment': None,
+                    'explanation': None, 'location': 'http://example.com/' if tb['classes'][cls]['move'] else '',
+                    'headers': [], 'environ': env0, 'body_template': None, 'formatter': None, 'ctype_kw': None,
+                    'charset_kw': None}
+            for fm in fmts:
+                out.append(dict(base, formatter=fm))
+                out.append(dict(base, formatter=fm, environ=env0 + [['HTTP_X_REQUEST_ID', 'abc-1<']]))
+                h = {f: base[f] for f in OBJ_FIELDS}
+                out.append(dict(h, via='history', formatter=fm, ctype_kw=None, charset_kw=None,
+                                calls=[env0, env0 + [['HTTP_X_REQUEST_ID', 'abc-1<']], env0]))
+            for ck in ['text/html', 'application/json', 'text/plain', 'application/problem+json', 'image/svg+xml']:
+                for cs in [None, 'latin-1', '']:
+                    out.append(dict(base, ctype_kw=ck, charset_kw=cs))
     for d in disagreements[:20]:
         out.append(d['case'])
     return [c for c in out if valid(c)]
